@@ -250,6 +250,128 @@ Proof.
     + exists b. split; reflexivity.
 Qed.
 
+(* ---- get_diff lists, left to right, exactly the minimal differing pairs ---- *)
+Fixpoint diff_full (a b : node) : list (list bool * (node * node)) :=
+  if bytes_eqb (root a) (root b) then []
+  else match a, b with
+       | PairN al ar, PairN bl br =>
+           map (fun e => (false :: fst e, snd e)) (diff_full al bl) ++ map (fun e => (true :: fst e, snd e)) (diff_full ar br)
+       | _, _ => [([], (a, b))]
+       end.
+
+Lemma diff_full_pairs a : forall b, map snd (diff_full a b) = get_diff a b.
+Proof.
+  induction a as [ra|al IHl ar IHr|ra]; intros b; cbn [diff_full Tree.get_diff]; destruct (bytes_eqb _ _); try reflexivity.
+  destruct b; try reflexivity. rewrite !map_app, !map_map. cbn [snd]. now rewrite IHl, IHr.
+Qed.
+
+(* specification.  The roots differ at the position and at every position above it ... *)
+Fixpoint differ_down (a b : node) (q : list bool) {struct q} : Prop :=
+  root a <> root b /\
+  match q with
+  | [] => True
+  | d :: q' =>
+      match a, b with
+      | PairN al ar, PairN bl br => differ_down (if d then ar else al) (if d then br else bl) q'
+      | _, _ => False
+      end
+  end.
+Definition both_pairs (x y : node) : Prop := match x, y with PairN _ _, PairN _ _ => True | _, _ => False end.
+(* ... and the pair cannot be refined any further: one of the two subtrees has no children to compare *)
+Definition minimal_pair (a b : node) (q : list bool) (x y : node) : Prop :=
+  getter a q = Ok x /\ getter b q = Ok y /\ differ_down a b q /\ ~ both_pairs x y.
+
+Theorem diff_exact : forall a b q x y, In (q, (x, y)) (diff_full a b) <-> minimal_pair a b q x y.
+Proof.
+  assert (forall a b, bytes_eqb (root a) (root b) = false -> ~ both_pairs a b ->
+            forall q x y, In (q, (x, y)) [([], (a, b))] <-> minimal_pair a b q x y) as Hbase.
+  { intros a b E Hnb q x y. assert (root a <> root b) as Hne by (intros Er; rewrite Er, bytes_eqb_refl' in E; discriminate). split.
+    - intros [Hin|[]]. inversion Hin; subst. unfold minimal_pair. cbn [Tree.getter]. split; [reflexivity|]. split; [reflexivity|]. split; [cbn [differ_down]; split; [exact Hne|exact I]|exact Hnb].
+    - intros (Hx & Hy & Hd & Hm). destruct q as [|d q].
+      + cbn in Hx, Hy. inversion Hx; inversion Hy; subst. now left.
+      + exfalso. cbn [differ_down] in Hd. destruct Hd as [_ Hd]. destruct a; try contradiction. destruct b; try contradiction. apply Hnb. exact I. }
+  induction a as [ra|al IHl ar IHr|ra]; intros b q x y; cbn [diff_full];
+    match goal with |- context [bytes_eqb ?u ?v] => destruct (bytes_eqb u v) eqn:E end.
+  - split; [intros []|]. intros (_ & _ & Hd & _). apply bytes_eqb_eq in E. destruct q; cbn [differ_down] in Hd; destruct Hd as [Hd _]; contradiction.
+  - apply Hbase; [exact E|intros Hb; exact Hb].
+  - split; [intros []|]. intros (_ & _ & Hd & _). apply bytes_eqb_eq in E. destruct q; cbn [differ_down] in Hd; destruct Hd as [Hd _]; contradiction.
+  - assert (root (PairN al ar) <> root b) as Hne by (intros Er; rewrite Er, bytes_eqb_refl' in E; discriminate).
+    destruct b as [rb|bl br|rb]; try (apply Hbase; [exact E|intros Hb; exact Hb]).
+    rewrite in_app_iff, !in_map_iff. split.
+    + intros [((q' & xy) & Eq & Hin)|((q' & xy) & Eq & Hin)]; cbn [fst snd] in Eq; inversion Eq; subst.
+      * apply IHl in Hin. destruct Hin as (Hx & Hy & Hd & Hm). repeat split; auto.
+      * apply IHr in Hin. destruct Hin as (Hx & Hy & Hd & Hm). repeat split; auto.
+    + intros (Hx & Hy & Hd & Hm). destruct q as [|d q].
+      * cbn in Hx, Hy. inversion Hx; inversion Hy; subst. exfalso. apply Hm. exact I.
+      * cbn [differ_down] in Hd. destruct Hd as [_ Hd]. cbn in Hx, Hy. destruct d.
+        -- right. exists (q, (x, y)). split; [reflexivity|]. apply IHr. repeat split; auto.
+        -- left. exists (q, (x, y)). split; [reflexivity|]. apply IHl. repeat split; auto.
+  - split; [intros []|]. intros (_ & _ & Hd & _). apply bytes_eqb_eq in E. destruct q; cbn [differ_down] in Hd; destruct Hd as [Hd _]; contradiction.
+  - apply Hbase; [exact E|intros Hb; exact Hb].
+Qed.
+
+(* left to right: the reported positions are strictly increasing in the left-before-right order, in particular
+   pairwise distinct and never nested *)
+Inductive lex_lt : list bool -> list bool -> Prop :=
+| lex_here p q : lex_lt (false :: p) (true :: q)
+| lex_tail d p q : lex_lt p q -> lex_lt (d :: p) (d :: q).
+
+Fixpoint prefix (p q : list bool) : Prop :=
+  match p, q with [], _ => True | d :: p', e :: q' => d = e /\ prefix p' q' | _ :: _, [] => False end.
+Lemma lex_lt_disjoint p q : lex_lt p q -> ~ prefix p q /\ ~ prefix q p.
+Proof. induction 1 as [p q|d p q _ [IH1 IH2]]; cbn; split; intros [E Hp]; try discriminate; auto. Qed.
+
+Inductive sorted_lt : list (list bool) -> Prop :=
+| sorted_nil : sorted_lt []
+| sorted_cons p l : Forall (lex_lt p) l -> sorted_lt l -> sorted_lt (p :: l).
+
+Lemma sorted_map d l : sorted_lt l -> sorted_lt (map (cons d) l).
+Proof.
+  induction 1 as [|p l Hp Hs IH]; cbn [map]; constructor; auto.
+  rewrite Forall_map. eapply Forall_impl; [|exact Hp]. intros q Hq. now constructor.
+Qed.
+Lemma sorted_app l r : sorted_lt l -> sorted_lt r -> (forall p q, In p l -> In q r -> lex_lt p q) -> sorted_lt (l ++ r).
+Proof.
+  induction 1 as [|p l Hp Hs IH]; intros Hr Hlr; cbn [app]; [exact Hr|]. constructor.
+  - apply Forall_app. split; [exact Hp|]. apply Forall_forall. intros q Hq. apply Hlr; [now left|exact Hq].
+  - apply IH; [exact Hr|]. intros p' q Hp' Hq. apply Hlr; [now right|exact Hq].
+Qed.
+
+Theorem diff_sorted : forall a b, sorted_lt (map fst (diff_full a b)).
+Proof.
+  induction a as [ra|al IHl ar IHr|ra]; intros b; cbn [diff_full]; destruct (bytes_eqb _ _); try constructor; try constructor.
+  destruct b as [rb|bl br|rb]; try (repeat constructor).
+  rewrite map_app, !map_map. cbn [fst].
+  rewrite <- (map_map fst (cons false)), <- (map_map fst (cons true)).
+  apply sorted_app; [apply sorted_map, IHl|apply sorted_map, IHr|].
+  intros p q Hp Hq. apply in_map_iff in Hp as (p' & <- & _). apply in_map_iff in Hq as (q' & <- & _). constructor.
+Qed.
+
+(* with a collision-free hash, "the roots differ all the way down to the position" is just "the roots differ at the
+   position": the changelog is exactly the set of positions whose subtrees differ and cannot be refined *)
+Lemma differ_down_inj (Hi : Hinj) : forall q a b x y, novirt a -> novirt b ->
+  getter a q = Ok x -> getter b q = Ok y -> root x <> root y -> differ_down a b q.
+Proof.
+  induction q as [|d q IH]; intros a b x y Ha Hb Hx Hy Hne.
+  - cbn in Hx, Hy. inversion Hx; inversion Hy; subst. split; [exact Hne|exact I].
+  - split.
+    + intros Er. apply Hne. exact (same_root_same_sub Hi (d :: q) a b x y Ha Hb Er Hx Hy).
+    + destruct a as [ra|al ar|ra]; cbn in Hx; try discriminate. destruct b as [rb|bl br|rb]; cbn in Hy; try discriminate.
+      destruct Ha as [Ha1 Ha2], Hb as [Hb1 Hb2]. destruct d; [apply (IH ar br x y)|apply (IH al bl x y)]; auto.
+Qed.
+
+Corollary diff_exact_inj (Hi : Hinj) a b q x y : novirt a -> novirt b ->
+  (In (q, (x, y)) (diff_full a b) <-> getter a q = Ok x /\ getter b q = Ok y /\ root x <> root y /\ ~ both_pairs x y).
+Proof.
+  intros Ha Hb. rewrite diff_exact. unfold minimal_pair. split.
+  - intros (Hx & Hy & Hd & Hm). repeat split; auto. clear Hm. revert a b Ha Hb Hx Hy Hd. induction q as [|d q IH]; intros a b Ha Hb Hx Hy Hd.
+    + cbn in Hx, Hy. inversion Hx; inversion Hy; subst. now destruct Hd.
+    + destruct Hd as [_ Hd]. destruct a as [ra|al ar|ra]; try contradiction. destruct b as [rb|bl br|rb]; try contradiction.
+      cbn in Hx, Hy. destruct Ha as [Ha1 Ha2], Hb as [Hb1 Hb2]. destruct d; [apply (IH ar br)|apply (IH al bl)]; auto.
+  - intros (Hx & Hy & Hne & Hm). repeat split; auto. now apply (differ_down_inj Hi q a b x y).
+Qed.
+
+
 (* ---- leaf_iter ---- *)
 Fixpoint leaf_paths (n : node) : list (list bool) :=
   match n with
